@@ -50,6 +50,8 @@ def conds_streamHTTP_decodeRequestArgs : List String := [
 
 def conds_streamGRPC_RecvMsg : List String := [
    "func (*streamGRPC) RecvMsg(m interface{}) error",
+   "if err := s.begin(); err != nil",
+   "return err",
    "defer s.wg.Done()",
    "if err := s.isDone(); err != nil",
    "return err",
@@ -80,6 +82,8 @@ def conds_streamGRPC_RecvMsg : List String := [
 
 def conds_streamGRPC_SendMsg : List String := [
    "func (*streamGRPC) SendMsg(m interface{}) error",
+   "if err := s.begin(); err != nil",
+   "return err",
    "defer s.wg.Done()",
    "if err := s.isDone(); err != nil",
    "return err",
